@@ -156,9 +156,35 @@ fn parse_ops(s: &str) -> Vec<Op> {
     }).collect()
 }
 
-fn run_ops(ops: &[Op]) -> Option<(String, String)> {
-    let mut b = Bus::new();
+/// Base buses: a new one, and two taken out of a Machine on which the key was pressed (the
+/// interrupt status register is only ever set by the CPU side, never through the bus interface).
+/// An op `Input(9, k)` at the head of a list selects base k.
+fn base(k: u8) -> (Bus, Ref) {
     let mut r: Ref = RBus::new(RealBoard(Board::new()));
+    if k == 0 {
+        return (Bus::new(), r);
+    }
+    let mut m = emulator_2a_lib::machine::Machine::new(emulator_2a_lib::machine::MachineConfig::default());
+    if k == 1 {
+        m.raw_mut().bus_mut().write(0xF9, 0x01);
+        r.write(0xF9, 0x01);
+        r.misr = 0x11; // key interrupt pending + request active
+    } else {
+        r.misr = 0x01; // request active only: the key-edge enable bit was clear
+    }
+    m.trigger_key_interrupt();
+    (m.bus().clone(), r)
+}
+
+fn run_ops(ops: &[Op]) -> Option<(String, String)> {
+    let (k, ops) = match ops.first() {
+        Some(Op::Input(9, k)) => (*k, &ops[1..]),
+        _ => (0, ops),
+    };
+    let (mut b, mut r) = base(k);
+    if let Some((kk, w)) = compare(&b, &r) {
+        return Some((kk, format!("base bus {}: {}", k, w)));
+    }
     for (i, op) in ops.iter().enumerate() {
         if let Some(w) = apply(&mut b, &mut r, *op) {
             return Some(("read".into(), format!("op #{} {:?}: {}", i, op, w)));
@@ -176,6 +202,8 @@ fn prior_states() -> Vec<Vec<Op>> {
         vec![],
         // every register holds a value of its own, so that a read or write landing on a neighbour shows
         vec![Op::Write(0x00, 0xAA), Op::Write(0xEF, 0x55), Op::Write(0xEE, 0x56), Op::Input(0, 0x11), Op::Input(1, 0x22), Op::Input(2, 0x33), Op::Input(3, 0x44), Op::Write(0xFE, 0x7E), Op::Write(0xFF, 0x7F), Op::Di1(0x66), Op::Write(0xF0, 0x77), Op::Write(0xF1, 0x88), Op::J1(true)],
+        vec![Op::Input(9, 1)],
+        vec![Op::Input(9, 2), Op::Write(0xF9, 0x3F)],
         vec![Op::Write(0xF9, 0x01), Op::Write(0xF0, 200), Op::Write(0xF1, 50), Op::Ai1(30), Op::Write(0xF2, 0x87), Op::Write(0xF2, 0xC4), Op::Di1(0x99)],
     ]
 }
@@ -288,17 +316,23 @@ pub fn run() {
         v.extend_from_slice(&n.r.input);
         v.extend_from_slice(&n.r.out);
         v.push(n.r.micr);
+        v.push(n.r.misr);
         for a in 0xF0..=0xF3u8 {
             v.push(n.r.read(a));
         }
         v.extend_from_slice(format!("{:?}", n.r.board.0).as_bytes());
         mc::fnv(&v) ^ (n.bad.is_some() as u64)
     };
-    let init = Node { b: Bus::new(), r: RBus::new(RealBoard(Board::new())), hist: vec![], bad: None };
+    let inits: Vec<Node> = (0..3u8)
+        .map(|k| {
+            let (b, r) = base(k);
+            Node { b, r, hist: if k == 0 { vec![] } else { vec![Op::Input(9, k)] }, bad: None }
+        })
+        .collect();
     let alpha = alphabet.clone();
     let bad_nodes = std::sync::Mutex::new(vec![]);
     let stats = mc::bfs(
-        vec![init],
+        inits,
         depth,
         usize::MAX,
         key,
